@@ -182,7 +182,8 @@ func runModel(bin string, legs []int, ins [][]int64) ([][]int64, error) {
 }
 
 func runModel1(bin string, legs []int, ins [][]int64) ([][]int64, error) {
-	cmd := exec.Command(bin)
+	// deep fuel values are unary nats: give the extracted code a large native stack
+	cmd := exec.Command("sh", "-c", "ulimit -s 8000000 2>/dev/null || ulimit -s unlimited 2>/dev/null; exec \"$0\"", bin)
 	stdin, err := cmd.StdinPipe()
 	if err != nil {
 		return nil, err
